@@ -257,22 +257,26 @@ class FunctionType:
     #:            calling convention
     msvc_convention: typing.Optional[str] = None
 
-    def format(self) -> str:
-        vararg = "..." if self.vararg else ""
+    def _format_params(self) -> str:
         params = ", ".join(p.format() for p in self.parameters)
+        if self.vararg:
+            params = f"{params}, ..." if params else "..."
+        return params
+
+    def format(self) -> str:
+        params = self._format_params()
         if self.has_trailing_return:
-            return f"auto ({params}{vararg}) -> {self.return_type.format()}"
+            return f"auto ({params}) -> {self.return_type.format()}"
         else:
-            return f"{self.return_type.format()} ({params}{vararg})"
+            return self.return_type.format_decl(f"({params})")
 
     def format_decl(self, name: str) -> str:
         """Format as a named declaration"""
-        vararg = "..." if self.vararg else ""
-        params = ", ".join(p.format() for p in self.parameters)
+        params = self._format_params()
         if self.has_trailing_return:
-            return f"auto {name}({params}{vararg}) -> {self.return_type.format()}"
+            return f"auto {name}({params}) -> {self.return_type.format()}"
         else:
-            return f"{self.return_type.format()} {name}({params}{vararg})"
+            return self.return_type.format_decl(f"{name}({params})")
 
 
 @dataclass
@@ -318,11 +322,18 @@ class Array:
 
     def format(self) -> str:
         s = self.size.format() if self.size else ""
+        inner = self.array_of
+        while isinstance(inner, Pointer):
+            inner = inner.ptr_to
+        if not isinstance(inner, Type):
+            # arrays of arrays (the outer bound is written first) and arrays of
+            # pointers to arrays/functions need the declarator syntax
+            return self.array_of.format_decl(f"[{s}]")
         return f"{self.array_of.format()}[{s}]"
 
     def format_decl(self, name: str) -> str:
         s = self.size.format() if self.size else ""
-        return f"{self.array_of.format()} {name}[{s}]"
+        return self.array_of.format_decl(f"{name}[{s}]")
 
 
 @dataclass
@@ -367,7 +378,7 @@ class Reference:
 
     def format(self) -> str:
         ref_to = self.ref_to
-        if isinstance(ref_to, Array):
+        if isinstance(ref_to, (Array, FunctionType)):
             return ref_to.format_decl("(&)")
         else:
             return f"{ref_to.format()}&"
@@ -376,7 +387,7 @@ class Reference:
         """Format as a named declaration"""
         ref_to = self.ref_to
 
-        if isinstance(ref_to, Array):
+        if isinstance(ref_to, (Array, FunctionType)):
             return ref_to.format_decl(f"(& {name})")
         else:
             return f"{ref_to.format()}& {name}"
@@ -391,11 +402,19 @@ class MoveReference:
     moveref_to: typing.Union[Array, FunctionType, Pointer, Type]
 
     def format(self) -> str:
-        return f"{self.moveref_to.format()}&&"
+        moveref_to = self.moveref_to
+        if isinstance(moveref_to, (Array, FunctionType)):
+            return moveref_to.format_decl("(&&)")
+        else:
+            return f"{moveref_to.format()}&&"
 
     def format_decl(self, name: str):
         """Format as a named declaration"""
-        return f"{self.moveref_to.format()}&& {name}"
+        moveref_to = self.moveref_to
+        if isinstance(moveref_to, (Array, FunctionType)):
+            return moveref_to.format_decl(f"(&& {name})")
+        else:
+            return f"{moveref_to.format()}&& {name}"
 
 
 #: A type or function type that is decorated with various things
